@@ -18,8 +18,11 @@ import paths  # noqa: E402
 
 VERIF = vbuild.VERIF
 SPEC = os.path.join(VERIF, "spec")
-BUILD = os.path.join(VERIF, "build")
-EVID = os.path.join(VERIF, "evidence")
+# (VERIF_OUT redirects everything a run writes - build products, run directories, replay files, evidence - so that
+#  seeded changes can be judged in scratch worktrees, in parallel, without touching /verif or /repo: tools/seedpar.py)
+OUT = os.environ.get("VERIF_OUT", VERIF)
+BUILD = os.path.join(OUT, "build")
+EVID = os.path.join(OUT, "evidence")
 TLA_JAR = "/opt/veriftools/tla/tla2tools.jar"
 NCPU = 16
 
@@ -341,8 +344,18 @@ def v2store_cfg():
                     postcondition="Accepted")
 
 
+def txn_also():
+    """TraceTxn: the statement log of every complete call must form at most one atomic unit."""
+    return [("TraceTxn", cfg_text("TSpec", {}, postcondition="Accepted").replace("CONSTANTS\n", ""))]
+
+
 def v2store_also(schema):
     return [("TraceV2Store", v2store_cfg())] if family(schema) == "v2" else []
+
+
+def store_also(schema):
+    """The storage-layer trace specification of the schema's family (rows predicted = rows found)."""
+    return [("TraceV2Store" if family(schema) == "v2" else "TraceV1Store", v2store_cfg())]
 
 
 def load_trace(path):
@@ -359,7 +372,7 @@ def load_trace(path):
     return recs
 
 
-def validate_trace(module, cfg, trace_path, wd, tag, max_rejections=3, timeout=900):
+def validate_trace(module, cfg, trace_path, wd, tag, max_rejections=3, timeout=2700):
     """Validates one trace file (many executions) against a trace spec.
 
     Returns dict(accepted=#executions, rejected=[{first_record, exec_records, reason}], kf=[names], records=n).
